@@ -182,8 +182,9 @@ Upd(e) ==
                    /\ UNCHANGED <<stored, bk>>
                    /\ cnt' = IF IsRefresh(e) THEN [cnt EXCEPT !.refresh = @ + 1] ELSE cnt
               ELSE /\ stored' = Put(stored, e.k, At(stored, e.k, {}) \cup {e.v})
-                   /\ bk' = Put(bk, e.k, [v |-> e.v, e |-> ExpiryFor(e.ttl),
-                                           src |-> IF IsRefresh(e) THEN "refresh" ELSE "build"])
+                   /\ bk' = IF cfg.NoOpBe THEN bk      \* cache.NoOp drops every write
+                            ELSE Put(bk, e.k, [v |-> e.v, e |-> ExpiryFor(e.ttl),
+                                               src |-> IF IsRefresh(e) THEN "refresh" ELSE "build"])
                    /\ cnt' = IF IsRefresh(e) THEN [cnt EXCEPT !.refresh = @ + 1, !.writes = @ + 1]
                                              ELSE [cnt EXCEPT !.writes = @ + 1]
                    /\ UNCHANGED injected
